@@ -197,6 +197,7 @@ func init() {
 	pbt.RegisterEnum(pbt.Enum[tplCase]{Name: "generate-template-table", Exhaustive: true, Each: eachTpl, Check: noShrink(checkTpl)})
 	pbt.RegisterEnum(pbt.Enum[cutCase]{Name: "breaks-off-at-eof", Exhaustive: true, Each: eachCut, Check: noShrink(checkCut)})
 	pbt.RegisterEnum(pbt.Enum[fillerCase]{Name: "paren-filler-table", Exhaustive: true, Each: eachFiller, Check: noShrink(checkFiller)})
+	pbt.RegisterEnum(pbt.Enum[readTableCase]{Name: "read-fault-table", Exhaustive: true, Each: eachReadTable, Check: noShrink(checkReadTable)})
 	// replay targets for inputs found by the native fuzz targets (no generated cases of their own:
 	// the rapid counterpart of FuzzZoneParser is "mutated")
 	pbt.RegisterEnum(pbt.Enum[hostileCase]{Name: "fuzz-zone", Each: func(emit func(hostileCase)) {
